@@ -22,6 +22,7 @@ import (
 // emitted for it, and the batch resumes after it.
 
 type batchResult struct {
+	harness map[int]string // the child died in harness code (no frame of the code under test on the stack): a harness failure
 	fatal   map[int]string // case index -> detail, for cases that killed the child (confirmed by a solo re-run)
 	flaky   map[int]string // died once, passed alone
 	timeout map[int]bool
@@ -31,7 +32,7 @@ type batchResult struct {
 // case 0..n-1 has been executed or observed to be fatal.  Parts are appended to out in case order by
 // the caller (each child writes its own part file; this function returns their paths).
 func superviseBatch(cmdName string, extra []string, n int, perCase time.Duration, memLimitMB int, partPrefix string) ([]string, batchResult, error) {
-	res := batchResult{fatal: map[int]string{}, flaky: map[int]string{}, timeout: map[int]bool{}}
+	res := batchResult{harness: map[int]string{}, fatal: map[int]string{}, flaky: map[int]string{}, timeout: map[int]bool{}}
 	var parts []string
 	self, err := os.Executable()
 	if err != nil {
@@ -92,7 +93,16 @@ func superviseBatch(cmdName string, extra []string, n int, perCase time.Duration
 				}
 			}
 			se := stderr.String()
-			if i := strings.Index(se, "fatal error:"); i >= 0 {
+			if !strings.Contains(se, "github.com/akalin/gopar") && !strings.Contains(se, "out of memory") && !strings.Contains(se, "cannot allocate") && len(se) > 0 {
+				detail = "HARNESS:" + detail
+			}
+			if i := strings.Index(se, "panic:"); i >= 0 && !strings.Contains(se, "fatal error:") {
+				end := i + 200
+				if end > len(se) {
+					end = len(se)
+				}
+				detail += ": " + strings.Replace(se[i:end], "\n", " | ", -1)
+			} else if i := strings.Index(se, "fatal error:"); i >= 0 {
 				end := i + 160
 				if end > len(se) {
 					end = len(se)
@@ -134,7 +144,11 @@ func superviseBatch(cmdName string, extra []string, n int, perCase time.Duration
 				res.timeout[lastStart] = true
 				detail = "no progress within the time limit; " + detail
 			}
-			res.fatal[lastStart] = detail + " / alone: " + detail2
+			if strings.HasPrefix(detail2, "HARNESS:") || strings.HasPrefix(detail, "HARNESS:") {
+				res.harness[lastStart] = detail + " / alone: " + detail2
+			} else {
+				res.fatal[lastStart] = detail + " / alone: " + detail2
+			}
 			os.Remove(solo)
 		}
 		next = lastStart + 1
